@@ -87,13 +87,13 @@ func runChannels(a *Analyzer, r *Results) {
 						continue
 					}
 					n++
-					r.Check("Z4.sleep", props("C16", "C15"), "library code never waits in a call that cancellation cannot interrupt (time.Sleep, WaitGroup/Cond waits): every pause is a select or receive on a context", funcID(f), a.P.InstrPos(in), false,
+					r.Check("Z4.sleep", props("C16", "C15", "C12"), "library code never waits in a call that cancellation cannot interrupt (time.Sleep, WaitGroup/Cond waits): every pause is a select or receive on a context", funcID(f), a.P.InstrPos(in), false,
 						g.String()+" cannot be interrupted by the context: shutdown (or a superseded height) waits for it", "X")
 				}
 			}
 		}
 		if n == 0 {
-			r.Check("Z4.sleep", props("C16", "C15"), "library code never waits in a call that cancellation cannot interrupt (time.Sleep, WaitGroup/Cond waits): every pause is a select or receive on a context", "none", a.P.Pos(a.P.Func("(*leanhelix.MainLoop).run").Pos()), true, "", "X")
+			r.Check("Z4.sleep", props("C16", "C15", "C12"), "library code never waits in a call that cancellation cannot interrupt (time.Sleep, WaitGroup/Cond waits): every pause is a select or receive on a context", "none", a.P.Pos(a.P.Func("(*leanhelix.MainLoop).run").Pos()), true, "", "X")
 		}
 	}
 	ops := a.chanOps()
@@ -341,7 +341,7 @@ func runSpawn(a *Analyzer, r *Results) {
 		for _, b := range f.Blocks {
 			for _, in := range b.Instrs {
 				if _, ok := in.(*ssa.Go); ok {
-					r.Check("Z5.go", props("C16"), "library code starts goroutines only through the supervised creators (no bare go statement)", funcID(f), a.P.InstrPos(in), false, "go statement in "+funcID(f), "W")
+					r.Check("Z5.go", props("C16", "C12"), "library code starts goroutines only through the supervised creators (no bare go statement)", funcID(f), a.P.InstrPos(in), false, "go statement in "+funcID(f), "W")
 				}
 				if call, ok := in.(*ssa.Call); ok {
 					if sc := call.Call.StaticCallee(); sc != nil {
@@ -370,7 +370,7 @@ func runSpawn(a *Analyzer, r *Results) {
 								}
 								ok, reason = stored, "election timer owned by the trigger: stopped by Stop (Z7), its send is cancellable (Z6)"
 							}
-							r.Check("Z5.creators", props("C16"), "goroutine / timer creators are called only by their owners: supervised loops by MainLoop methods, the election timer by a method of the trigger that stores it where Stop() finds it", id+"|"+recv, a.P.InstrPos(in), ok, "goroutine/timer creator call in "+funcID(f)+" outside the owning type (or the timer is not kept for Stop)", "W").Guards = []string{reason}
+							r.Check("Z5.creators", props("C16", "C12"), "goroutine / timer creators are called only by their owners: supervised loops by MainLoop methods, the election timer by a method of the trigger that stores it where Stop() finds it", id+"|"+recv, a.P.InstrPos(in), ok, "goroutine/timer creator call in "+funcID(f)+" outside the owning type (or the timer is not kept for Stop)", "W").Guards = []string{reason}
 						}
 					}
 				}
@@ -468,7 +468,7 @@ func runLocks(a *Analyzer, r *Results) {
 						return true
 					}
 					ok2 := held(f, 0, map[*ssa.Function]bool{})
-					r.Check("L.lock", props("C13", "C15", "C12"), "every access to the mutex-guarded fields of State / ViewContexts / InMemoryStorage happens under the lock (Lock + deferred Unlock in the method, or in a helper whose callers all hold it)",
+					r.Check("L.lock", props("C13", "C15", "C12", "C16"), "every access to the mutex-guarded fields of State / ViewContexts / InMemoryStorage happens under the lock (Lock + deferred Unlock in the method, or in a helper whose callers all hold it)",
 						g.typ+"."+name+"|"+shortName(f), a.P.InstrPos(in), ok2, why, "L")
 				}
 			}
